@@ -441,9 +441,10 @@ int32_t jls_core_fsr_statistics(struct jls_core_s * self, uint16_t signal_id,
 
     int64_t samples = 0;
     ROE(jls_core_fsr_length(self, signal_id, &samples));
-    int64_t end_sample_id = start_sample_id + increment * data_length;
-    if (end_sample_id > samples) {
-        JLS_LOGW("invalid length: %" PRIi64 " > %" PRIi64, end_sample_id, samples);
+    // increment * data_length and start_sample_id + that product must not overflow
+    if ((data_length > (samples / increment)) || (start_sample_id > (samples - increment * data_length))) {
+        JLS_LOGW("invalid length: start %" PRIi64 " + %" PRIi64 " * %" PRIi64 " > %" PRIi64,
+                 start_sample_id, increment, data_length, samples);
         return JLS_ERROR_PARAMETER_INVALID;
     }
     struct jls_signal_def_s * signal_def = &self->signal_info[signal_id].signal_def;
